@@ -29,18 +29,18 @@ func IsVoid(v any) bool { _, ok := v.(voidT); return ok }
 
 // Open rows (reference silent). Value 0 is the behaviour observed at the pinned commit.
 const (
-	RowBoolArith     = "bool-in-arithmetic"     // 0: as 0/1, 1: error
-	RowFloatMod      = "float-modulo"           // 0: error, 1: math.Mod
-	RowBoolNumEq     = "bool-vs-number-eq"      // 0: numeric compare, 1: false
+	RowBoolArith     = "bool-in-arithmetic"      // 0: as 0/1, 1: error
+	RowFloatMod      = "float-modulo"            // 0: error, 1: math.Mod
+	RowBoolNumEq     = "bool-vs-number-eq"       // 0: numeric compare, 1: false
 	RowIntFloatEq    = "int-vs-float-eq-inexact" // 0: compare as float64, 1: exact
-	RowCollNumEq     = "numbers-in-collections" // 0: type-strict, 1: numeric
-	RowUnaryBool     = "sign-of-bool"           // 0: as 0/1, 1: error
-	RowBoolCmp       = "bool-in-comparison"     // 0: as 0/1, 1: error
-	RowStrSliceUnit  = "string-slice-unit"      // 0: bytes, 1: runes
-	RowUndefCompound = "compound-on-undefined"  // 0: no-op, 1: error
-	RowNilBound      = "nil-slice-bound"        // 0: as omitted, 1: error
-	RowVoidValue     = "valueless-as-value"     // 0: treated as nil, 1: error   (v1 only)
-	RowObjlessIndex  = "objectless-index"       // 0: error, 1: nil
+	RowCollNumEq     = "numbers-in-collections"  // 0: type-strict, 1: numeric
+	RowUnaryBool     = "sign-of-bool"            // 0: as 0/1, 1: error
+	RowBoolCmp       = "bool-in-comparison"      // 0: as 0/1, 1: error
+	RowStrSliceUnit  = "string-slice-unit"       // 0: bytes, 1: runes
+	RowUndefCompound = "compound-on-undefined"   // 0: no-op, 1: error
+	RowNilBound      = "nil-slice-bound"         // 0: as omitted, 1: error
+	RowVoidValue     = "valueless-as-value"      // 0: treated as nil, 1: error   (v1 only)
+	RowObjlessIndex  = "objectless-index"        // 0: error, 1: nil
 )
 
 var AllRows = []string{RowBoolArith, RowFloatMod, RowBoolNumEq, RowIntFloatEq, RowCollNumEq, RowUnaryBool, RowBoolCmp, RowStrSliceUnit, RowUndefCompound, RowNilBound, RowVoidValue, RowObjlessIndex}
